@@ -106,14 +106,19 @@ def gen(repo):
     ktree, _ = parse_file(repo, "xeofs/preprocessing/concatenator.py")
     kcls = find_class(ktree, "Concatenator")
     loops = [n for n in body_nodoc(find_func(kcls, "_split_dataarray_into_list")) if isinstance(n, ast.For)]
-    if len(loops) != 1 or ast.unparse(loops[0].iter) != "enumerate(self.coords_in.values())":
-        raise TransError("Concatenator._split_dataarray_into_list: blocks are walked as %s" % (ast.unparse(loops[0].iter) if loops else None))
+    walked = ast.unparse(loops[0].iter) if len(loops) == 1 else None
+    if walked == "enumerate(self.coords_in.values())":
+        concat_rule = "Insertion"
+    elif walked == "enumerate(sorted(self.coords_in))":
+        concat_rule = "SortedKeys"
+    else:
+        raise TransError("Concatenator._split_dataarray_into_list: blocks are walked as %s" % walked)
     kfit = "\n".join(ast.unparse(n) for n in body_nodoc(find_func(kcls, "fit")))
     if "self.coords_in = {str(i): data.coords[self.feature_name] for (i, data) in enumerate(X)}" not in kfit.replace("for i, data in", "for (i, data) in"):
         raise TransError("Concatenator.fit: coords_in changed")
     sl = lambda xs: "[" + "; ".join('"%s"' % x for x in xs) + "]"  # noqa
     out = ["(* generated by tools/py2coq/t7_pipe.py from %s and %s *)" % (PRE, REN), "From Coq Require Import String List Bool.",
-           "From XV Require Import Model.Pipe.", "Import ListNotations.", "Open Scope string_scope.", "",
+           "From XV Require Import Model.Pipe Model.Concat.", "Import ListNotations.", "Open Scope string_scope.", "",
            "Definition declared_order : list string := %s." % sl(declared),
            "Definition declared_classes : list string := %s." % sl(classes),
            "Definition fitted_order : list string := %s." % sl(fitted), "",
@@ -124,5 +129,5 @@ def gen(repo):
            "(* cross-set constructor wiring: stage object, its keyword, the constructor parameter, the position in the per-field pair *)",
            "Definition cross_wiring : list (string * string * string * nat) := [",
            ";\n".join('  ("%s", "%s", "%s", %d)' % w for w in wiring), "].", "",
-           "Definition concatenator_splits_in_insertion_order : bool := true."]
+           "Definition concat_rule : key_order := %s." % concat_rule]
     return "\n".join(out) + "\n"
